@@ -5,6 +5,9 @@ package pki
 // not_before_bound mode and every issuer leaf_not_after_behavior.
 //
 //vx:pkg github.com/openbao/openbao/v2/internal/builtin/logical/pki
+//vx:assume clock model: instants are whole seconds, time.Now is non-decreasing; time.Parse is a table of arbitrary instants; durations are arbitrary nanosecond counts in [0, 2^62)
+//vx:assume the requested ttl (which the unit multiplies by time.Second) ranges over the representatives -5s, 1s, 3600s, 2^31 s, or is absent
+//vx:assume mount default ttl > 0 and <= mount max ttl
 //vx:redirect (*github.com/openbao/openbao/sdk/v2/framework.FieldData).GetOk vxGetOk
 //vx:redirect (*github.com/openbao/openbao/sdk/v2/framework.FieldData).Get vxGet
 //vx:redirect (*github.com/openbao/openbao/sdk/v2/framework.Backend).System vxSystem
